@@ -575,18 +575,18 @@ theorem fieldOk_content {ig : List String} {skip : Option String}
             exact zipAll_itemOk_eq _ _ h'.2 hlen h3 hS
           · left; simpa using hS
 
-theorem shallowMainB_spec {cm : Bool} {ig : List String} {skip : Option String} {p s : T}
+theorem shallowMainB_spec {cm : Bool} {pf : String} {ig : List String} {skip : Option String} {p s : T}
     (hig : ∀ n, ig.contains n = true → structuralField n = true ∨ some n = skip)
-    (h : shallowMainB cm ig p s = true) :
-    p.kind = s.kind ∧ metasMatch cm p s = true ∧ contentEq skip p s = true := by
+    (h : shallowMainB cm pf ig p s = true) :
+    p.kind = s.kind ∧ metasMatch cm pf s = true ∧ contentEq skip p s = true := by
   simp only [shallowMainB, Bool.and_eq_true, decide_eq_true_eq] at h
   obtain ⟨⟨⟨h1, h2⟩, h3⟩, h4⟩ := h
   refine ⟨h2, h3, ?_⟩
   simp only [contentEq, Bool.and_eq_true, decide_eq_true_eq]
   exact ⟨Nat.le_of_eq h1, zipAll_imp (fun a b hab => fieldOk_content hig hab) _ _ h4⟩
 
-theorem shallowMain_some {cm : Bool} {ig : List String} {pp sp : Path} {p s : T} {b : AstMap}
-    (h : shallowMain cm ig pp p sp s = some b) : b = pairMap pp sp ∧ shallowMainB cm ig p s = true := by
+theorem shallowMain_some {cm : Bool} {pf : String} {ig : List String} {pp sp : Path} {p s : T} {b : AstMap}
+    (h : shallowMain cm pf ig pp p sp s = some b) : b = pairMap pp sp ∧ shallowMainB cm pf ig p s = true := by
   simp only [shallowMain] at h
   split at h
   · rename_i hc; cases h; exact ⟨rfl, hc⟩
@@ -623,11 +623,11 @@ theorem nodeOk_of_name {m : AstMap} {p s : T} {f : String} (hk : p.kind = s.kind
   simp [hf, hc, hn]
 
 /-- facts about a map returned by `shallow_match(ins, std)` -/
-structure ShallowGood (b : AstMap) (cm : Bool) (pp : Path) (p : T) (sp : Path) (s : T) : Prop where
+structure ShallowGood (b : AstMap) (cm : Bool) (pf : String) (pp : Path) (p : T) (sp : Path) (s : T) : Prop where
   maps : b.mappings = [(pp, sp)]
   inv : ConfInv b
   noconf : b.conflicts = []
-  metas : p.kind = "Module" ∨ metasMatch cm p s = true
+  metas : p.kind = "Module" ∨ metasMatch cm pf s = true
   node : role p = .concrete → nodeOk b p s = true
   exps : ∀ kv ∈ b.exps, role p = .expPh kv.1 ∧ kv.2 = sp ∧ p.kind = "Name"
   expKey : ∀ k, role p = .expPh k → p.kind = "Name" → (dictGet k b.exps).isSome = true
@@ -659,10 +659,10 @@ theorem nil_structural (skip : Option String) :
     ∀ n, ([] : List String).contains n = true → structuralField n = true ∨ some n = skip := by
   intro n hn; simp at hn
 
-theorem shallowMain_good {cm : Bool} {ig : List String} {pp sp : Path} {p s : T} {b : AstMap}
+theorem shallowMain_good {cm : Bool} {pf : String} {ig : List String} {pp sp : Path} {p s : T} {b : AstMap}
     (hig : ∀ n, ig.contains n = true → structuralField n = true ∨ some n = (none : Option String))
     (hne : ∀ k, role p ≠ .expPh k ∨ p.kind ≠ "Name")
-    (h : shallowMain cm ig pp p sp s = some b) : ShallowGood b cm pp p sp s := by
+    (h : shallowMain cm pf ig pp p sp s = some b) : ShallowGood b cm pf pp p sp s := by
   obtain ⟨rfl, hb⟩ := shallowMain_some h
   obtain ⟨h1, h2, h3⟩ := shallowMainB_spec hig hb
   exact ⟨rfl, confInv_pairMap _ _, rfl, Or.inr h2, fun _ => nodeOk_of_content h1 h3,
@@ -685,10 +685,10 @@ theorem role_not_exp_of_kind {p : T} (h1 : p.kind ≠ "Name") (h2 : p.kind ≠ "
     · split <;> simp
     · split <;> simp
 
-theorem symbolHandler_good {cm : Bool} {idVal : String} {pp sp : Path} {p s : T} {b : AstMap}
+theorem symbolHandler_good {cm : Bool} {pf : String} {idVal : String} {pp sp : Path} {p s : T} {b : AstMap}
     (hk : (p.kind = "Name" ∧ idVal = "id") ∨ (p.kind = "arg" ∧ idVal = "arg") ∨
           (p.kind = "Attribute" ∧ idVal = "attr" ∧ s.kind = "Attribute"))
-    (h : symbolHandler cm idVal pp p sp s = some b) : ShallowGood b cm pp p sp s := by
+    (h : symbolHandler cm pf idVal pp p sp s = some b) : ShallowGood b cm pf pp p sp s := by
   have hf : identField p.kind = some idVal := by
     rcases hk with ⟨h1, h2⟩ | ⟨h1, h2⟩ | ⟨h1, h2, _⟩
     · rw [h2]; exact identField_name h1
@@ -696,7 +696,7 @@ theorem symbolHandler_good {cm : Bool} {idVal : String} {pp sp : Path} {p s : T}
     · rw [h2]; exact identField_attr h1
   -- the fall-back to shallow_match_main
   have hmain : ∀ (hc : nameClass (p.strAttr idVal) ≠ .exp ∨ idVal ≠ "id"),
-      shallowMain cm ["ctx"] pp p sp s = some b → ShallowGood b cm pp p sp s := by
+      shallowMain cm pf ["ctx"] pp p sp s = some b → ShallowGood b cm pf pp p sp s := by
     intro hc hm
     refine shallowMain_good ctx_structural ?_ hm
     intro k
@@ -718,7 +718,7 @@ theorem symbolHandler_good {cm : Bool} {idVal : String} {pp sp : Path} {p s : T}
     · rename_i hcond
       simp only [Bool.and_eq_true, decide_eq_true_eq] at hcond
       have hnode : ∀ x : Bind, x.key = p.strAttr idVal → x.id = s.strAttr idVal →
-          ShallowGood ((pairMap pp sp).addBind x) cm pp p sp s := by
+          ShallowGood ((pairMap pp sp).addBind x) cm pf pp p sp s := by
         intro x hx1 hx2
         refine ⟨rfl, confInv_addBind (confInv_pairMap _ _) _, pairMap_addBind_conflicts _ _ _, Or.inr hcond.1, ?_, ?_, ?_⟩
         · intro _
@@ -794,16 +794,16 @@ theorem symbolHandler_good {cm : Bool} {idVal : String} {pp sp : Path} {p s : T}
     simp only [hc] at h
     exact hmain (Or.inl (by rw [hc]; simp)) h
 
-theorem shallowDef_good {cm : Bool} {tbl : Tbl} {ig : List String} {pp sp : Path} {p s : T} {b : AstMap}
+theorem shallowDef_good {cm : Bool} {pf : String} {tbl : Tbl} {ig : List String} {pp sp : Path} {p s : T} {b : AstMap}
     (hk : p.kind = "FunctionDef" ∨ p.kind = "ClassDef")
     (hig : ∀ n, ig.contains n = true → structuralField n = true ∨ some n = some "name")
-    (h : shallowDef cm tbl ig pp p sp s = some b) : ShallowGood b cm pp p sp s := by
+    (h : shallowDef cm pf tbl ig pp p sp s = some b) : ShallowGood b cm pf pp p sp s := by
   have hf : identField p.kind = some "name" := by
     rcases hk with hk | hk <;> simp [identField, hk]
   have hnn : p.kind ≠ "Name" := by rcases hk with hk | hk <;> rw [hk] <;> decide
   have hne : p.kind ≠ "Expr" := by rcases hk with hk | hk <;> rw [hk] <;> decide
   simp only [shallowDef] at h
-  cases hm : shallowMain cm ig pp p sp s with
+  cases hm : shallowMain cm pf ig pp p sp s with
   | none => simp [hm] at h
   | some m =>
     obtain ⟨rfl, hb⟩ := shallowMain_some hm
@@ -812,7 +812,7 @@ theorem shallowDef_good {cm : Bool} {tbl : Tbl} {ig : List String} {pp sp : Path
     split at h
     · rename_i hcond
       have common : ∀ b', b'.mappings = [(pp, sp)] → ConfInv b' → b'.conflicts = [] → b'.exps = [] →
-          nodeOk b' p s = true → ShallowGood b' cm pp p sp s := by
+          nodeOk b' p s = true → ShallowGood b' cm pf pp p sp s := by
         intro b' e1 e2 e3 e4 e5
         refine ⟨e1, e2, e3, Or.inr h2, fun _ => e5, ?_, ?_⟩
         · intro kv hkv; rw [e4] at hkv; cases hkv
@@ -841,11 +841,11 @@ theorem shallowDef_good {cm : Bool} {tbl : Tbl} {ig : List String} {pp sp : Path
         · cases h
     · cases h
 
-theorem shallowMatch_good {cm : Bool} {pp sp : Path} {p s : T} {b : AstMap}
-    (h : shallowMatch cm pp p sp s = some b) : ShallowGood b cm pp p sp s := by
+theorem shallowMatch_good {cm : Bool} {pf : String} {pp sp : Path} {p s : T} {b : AstMap}
+    (h : shallowMatch cm pf pp p sp s = some b) : ShallowGood b cm pf pp p sp s := by
   simp only [shallowMatch] at h
-  have pairGood : ∀ (hm : p.kind = "Module" ∨ metasMatch cm p s = true) (hr : role p ≠ .concrete)
-      (hn : p.kind ≠ "Name"), ShallowGood (pairMap pp sp) cm pp p sp s := by
+  have pairGood : ∀ (hm : p.kind = "Module" ∨ metasMatch cm pf s = true) (hr : role p ≠ .concrete)
+      (hn : p.kind ≠ "Name"), ShallowGood (pairMap pp sp) cm pf pp p sp s := by
     intro hm hr hn
     refine ⟨rfl, confInv_pairMap _ _, rfl, hm, fun h' => absurd h' hr, ?_, fun k _ h' => absurd h' hn⟩
     intro kv hkv; simp [pairMap] at hkv
